@@ -20,15 +20,23 @@ def nontrivial(kind, ins, outs):
 
 def _parse_net(field):
     fin = ""
+    wl = ""
+    if "^" in field:
+        field, wl = field.split("^", 1)
+        wl = "^" + wl
     if "!" in field:
         field, fin = field.split("!", 1)
     chunks = [bytes.fromhex(h) if h != "-" else b"" for h in field.split("~")]
-    return chunks, fin
+    return chunks, fin + wl
 
 
 def _net_field(chunks, fin):
     f = "~".join((c.hex() or "-") for c in chunks)
-    return f + ("!" + fin if fin else "")
+    wl = ""
+    if "^" in fin:
+        fin, wl = fin.split("^", 1)
+        wl = "^" + wl
+    return f + ("!" + fin if fin else "") + wl
 
 
 def shrink_candidates(inp):
@@ -48,6 +56,8 @@ def shrink_candidates(inp):
         return " ".join(q)
     if fin:
         yield emit(chunks, "")
+        if "^" in fin and not fin.startswith("^"):
+            yield emit(chunks, "^" + fin.split("^", 1)[1])
     for i in range(len(chunks) - 1):
         yield emit(chunks[:i] + [chunks[i] + chunks[i + 1]] + chunks[i + 2:], fin)
     for ci, raw in enumerate(chunks):
@@ -74,9 +84,11 @@ def post(run):
             continue
         naming[ins[1]] += 1
         stores[ins[11]] += 1
-        n = 0 if ins[12] == "-" else len(ins[12]) // 2
+        n = 0 if ins[12] == "-" else len(ins[12].split("^")[0].split("!")[0].replace("~", "")) // 2
         conn["pauses=%d" % min(ins[12].count("~"), 3)] += 1
-        conn["ends-by-" + (ins[12].split("!", 1)[1] if "!" in ins[12] else "eof")] += 1
+        conn["ends-by-" + (ins[12].split("^")[0].split("!", 1)[1] if "!" in ins[12] else "eof")] += 1
+        if "^" in ins[12]:
+            conn["writes-fail"] += 1
         sizes["<100" if n < 100 else "<1k" if n < 1000 else "<10k" if n < 10000 else "<100k" if n < 100000 else ">=100k"] += 1
         for sess in outs[0].split("|"):
             toks = sess.split(",")
